@@ -353,7 +353,7 @@ func cmdCheck(args []string) int {
 			sem <- struct{}{}
 			defer func() { <-sem }()
 			cfg := Config{
-				Unwind:        optInt(j.spec, *tier, "unwind", 64),
+				Unwind:        optInt(j.spec, *tier, "unwind", 2000),
 				MaxSteps:      optInt(j.spec, *tier, "steps", 2000000),
 				MaxConcretize: optInt(j.spec, *tier, "maxlen", 64),
 				FeasTimeout:   time.Duration(optInt(j.spec, *tier, "feas_timeout", 10)) * time.Second,
